@@ -9,6 +9,7 @@ import (
 	"errors"
 	"fmt"
 	"io"
+	"math"
 )
 
 type Zxy struct {
@@ -172,6 +173,12 @@ func stringToCompression(s string) Compression {
 	default:
 		return UnknownCompression
 	}
+}
+
+// degreesToE7 converts decimal degrees to the header's E7 fixed-point representation,
+// rounding to the nearest unit so that values with up to seven decimals are stored exactly.
+func degreesToE7(degrees float64) int32 {
+	return int32(math.Round(degrees * 10000000))
 }
 
 func headerToJson(header HeaderV3) HeaderJson {
